@@ -28,11 +28,11 @@ from .model import (Model, Space, orb_energy, fock_canonical,
                     fock_block_diagonal, symbolic_denominator, sort_sign)
 from .evalexpr import evaluate, kind_of
 
-# order-3 amplitudes: the fully expanded form is too expensive to build for
+# order-3 quantities: the fully expanded form is too expensive to build for
 # every process; their table is the once-expanded registered definition
 # evaluated with the lower-order tables (the check compares it with the fully
 # expanded one where that is feasible)
-ONCE_EXPANDED_DEFS = ("t1_3", "t2_3")
+ONCE_EXPANDED_DEFS = ("t1_3", "t2_3", "p0_3_oo", "p0_3_ov", "p0_3_vv")
 NO_TABLE = ("t2_1_re_residual", "t1_2_re_residual", "t2_2_re_residual")
 
 
